@@ -50,6 +50,10 @@ def collect_lets(body):
             for s in n.get("stmts", []):
                 if s["k"] == "let" and s["pat"].get("k") == "bind" and "init" in s:
                     lets[s["pat"]["var"]] = s["init"]
+                elif s["k"] == "let" and "init" in s:
+                    # `let Some(x) = e else { .. }` / destructuring: x is derived from e
+                    for b in pat_binds(s["pat"]):
+                        lets[b["var"]] = s["init"]
         if n["k"] == "let_cond":
             # `if let Some(x) = e`: x is derived from e
             for b in pat_binds(n["pat"]):
